@@ -2,7 +2,9 @@
 # usage: fixcommit.sh "<message>"  — builds, runs the unedited suite (guard off), commits /repo
 export GOFLAGS=-mod=mod GOPROXY=off GOSUMDB=off GOTOOLCHAIN=local
 cd /repo || exit 2
-gofmt -l $(git diff --name-only; git ls-files -o --exclude-standard | grep '\.go$') 2>/dev/null
+files=$( (git diff --name-only; git ls-files -o --exclude-standard) | grep '\.go$')
+if [ -z "$files" ]; then echo "nothing changed"; exit 1; fi
+gofmt -l $files 2>/dev/null
 go build ./... || exit 1
 /verif/scripts/baseline_off.sh || { echo "SUITE FAILED"; exit 1; }
 git add -A && git commit -q -m "$1" && git log --oneline | head -1
